@@ -151,6 +151,34 @@ func corpusFiles() []*descriptorpb.FileDescriptorProto {
 		Label: descriptorpb.FieldDescriptorProto_LABEL_OPTIONAL.Enum(), Type: descriptorpb.FieldDescriptorProto_TYPE_STRING.Enum(), Extendee: proto.String(".google.protobuf.MessageOptions")})
 	xf.MessageType = append(xf.MessageType, xh.m)
 	files = append(files, xf)
+	// a .proto file whose directory differs from the Go import path of its go_package (with an explicit package name),
+	// imported from another Go package: file names and import paths follow go_package
+	lf := newFile("corpus/protos/loc.proto", "corpus.loc", freshModule+"/corpus/elsewhere;elsepb")
+	lm := newMsg("Where", "corpus.loc.Where")
+	lm.field("path", 1, descriptorpb.FieldDescriptorProto_TYPE_STRING, "")
+	lf.MessageType = append(lf.MessageType, lm.m)
+	files = append(files, lf)
+	// oneof members whose wrapper names collide: with a nested message (protogen appends '_' to the wrapper) and with
+	// a protoreflect.Message method name (the member is renamed, its wrapper is not)
+	ef := newFile("corpus/event/event.proto", "corpus.event", freshModule+"/corpus/event", "corpus/protos/loc.proto")
+	ev := newMsg("Event", "corpus.event.Event")
+	evc := newMsg("Created", "corpus.event.Event.Created")
+	evc.field("by", 1, descriptorpb.FieldDescriptorProto_TYPE_STRING, "")
+	evd := newMsg("Deleted", "corpus.event.Event.Deleted")
+	ev.m.NestedType = append(ev.m.NestedType, evc.m, evd.m)
+	ev.field("id", 1, descriptorpb.FieldDescriptorProto_TYPE_UINT64, "")
+	ek := ev.oneofDecl("kind")
+	ev.member(ek, "created", 2, tMsg, ".corpus.event.Event.Created")
+	ev.member(ek, "deleted", 3, tMsg, ".corpus.event.Event.Deleted")
+	ev.member(ek, "note", 4, descriptorpb.FieldDescriptorProto_TYPE_STRING, "")
+	ev.field("where", 5, tMsg, ".corpus.loc.Where")
+	rq := newMsg("Request", "corpus.event.Request")
+	ro := rq.oneofDecl("op")
+	rq.member(ro, "get", 1, descriptorpb.FieldDescriptorProto_TYPE_STRING, "")
+	rq.member(ro, "put", 2, descriptorpb.FieldDescriptorProto_TYPE_STRING, "")
+	rq.member(ro, "range", 3, descriptorpb.FieldDescriptorProto_TYPE_BYTES, "")
+	ef.MessageType = append(ef.MessageType, ev.m, rq.m)
+	files = append(files, ef)
 	// a proto path with upper-case letters (file-scoped identifiers are derived from it)
 	mc := newFile("corpus/Mixed/CaseTypes.proto", "corpus.mixed", freshModule+"/corpus/mixed")
 	mcm := newMsg("TxBody", "corpus.mixed.TxBody")
